@@ -203,3 +203,15 @@ Proof.
     apply inject_consumes in E; [|discriminate].
     destruct (text' ++ _); auto.
 Qed.
+
+(* C12: a delimited block resets the pending block options when it is done, whatever it rendered: options given on a
+   Block Attributes line alter the processing of that one block only *)
+Lemma dblock_body_resets_options fuel doc i d m rest s r s' :
+  dblock_body fuel doc i d m rest s = Ok (r, s') -> p_opts s' = expand_none.
+Proof.
+  revert s r s'. change (post (fun s => p_opts s = expand_none) (dblock_body fuel doc i d m rest)).
+  unfold dblock_body. apply post_bind; intros dt. apply post_bind; intros closeRe.
+  destruct (readTo closeRe rest) as [[content rd1]|e|]; [|apply post_raise|intros s a s' H; discriminate].
+  apply post_bind; intros _. apply post_bind; intros expand. apply post_bind; intros out.
+  intros s a s' H. unfold bind, modify, ret in H. inversion H; subst. destruct s; reflexivity.
+Qed.
